@@ -9,6 +9,7 @@ type verifExpRule struct {
 	Rhs    []string
 	Prec   string
 	Action string
+	Mid    string // a mid-rule action of this rule ("" if none)
 }
 
 type verifExpTok struct {
@@ -86,6 +87,23 @@ func verifCheckRead(id int, text string, code, union, rest string, actionOf map[
 		return
 	}
 	exp := verifExpRules[id]
+	for _, e := range exp {
+		if e.Mid == "" {
+			continue
+		}
+		// a mid-rule action is an action body of the file: it must be part of what yaccgo works on
+		// (whether as an action of the rule or of a rule generated for it is yaccgo's business)
+		found := false
+		for _, r := range v.rules {
+			if verifHas(r.ActionCode, e.Mid) {
+				found = true
+			}
+		}
+		verifCover("mid-rule")
+		verifCover("read")
+		verifAssert(found, "C10: a mid-rule action body is lost")
+		return
+	}
 	verifAssert(len(v.rules) == len(exp), "C10: number of rules read differs from the file")
 	if len(v.rules) != len(exp) {
 		return
@@ -244,4 +262,13 @@ func VerifSemicolons(id int) {
 		}
 	}
 	verifCheckRead(id, verifRender(id, extra), verifExpCode[id], verifExpUnion[id], verifExpRest[id], nil)
+}
+
+func verifHas(s, sub string) bool {
+	for i := 0; i+len(sub) <= len(s); i++ {
+		if s[i:i+len(sub)] == sub {
+			return true
+		}
+	}
+	return false
 }
